@@ -192,14 +192,52 @@ func runVClockMerge(c *core.Ctx) {
 	origin := map[types.Object]types.Object{recv: recv, param: param}
 	var swaps [][2]types.Object
 	okShape := true
+	// accumulators: variables rebuilt by `v = v.Set(..)`; they start as (the map of) an operand but are not names for it
+	accumulators := map[types.Object]bool{}
+	ast.Inspect(fn.Body(), func(m ast.Node) bool {
+		as, ok := m.(*ast.AssignStmt)
+		if !ok || as.Tok != token.ASSIGN || len(as.Lhs) != 1 || len(as.Rhs) != 1 {
+			return true
+		}
+		if call, isCall := an.Unparen(as.Rhs[0]).(*ast.CallExpr); isCall {
+			if sel, isSel := an.Unparen(call.Fun).(*ast.SelectorExpr); isSel && sel.Sel.Name == "Set" {
+				if o := an.ObjOf(info, as.Lhs[0]); o != nil && o == an.ObjOf(info, sel.X) {
+					accumulators[o] = true
+				}
+			}
+		}
+		return true
+	})
 	ast.Inspect(fn.Body(), func(m ast.Node) bool {
 		as, ok := m.(*ast.AssignStmt)
 		if !ok {
 			return true
 		}
-		if len(as.Lhs) == 1 && len(as.Rhs) == 1 && as.Tok == token.DEFINE {
-			if o := an.ObjOf(info, as.Rhs[0]); o != nil && origin[o] != nil {
-				origin[info.Defs[as.Lhs[0].(*ast.Ident)]] = origin[o]
+		if len(as.Lhs) == len(as.Rhs) && as.Tok == token.DEFINE {
+			// `x := operand`, `x := operand.clock`, `a, b := clock.clock, other.clock`: names for (the map of) an operand
+			for i := range as.Lhs {
+				id, isId := as.Lhs[i].(*ast.Ident)
+				if !isId {
+					continue
+				}
+				r := an.Unparen(as.Rhs[i])
+				for {
+					sel, isSel := r.(*ast.SelectorExpr)
+					if !isSel {
+						break
+					}
+					r = an.Unparen(sel.X)
+				}
+				// a single `acc := self.clock` is the accumulator, not a name for the operand (it is re-assigned by the loop)
+				if len(as.Lhs) == 1 && r != an.Unparen(as.Rhs[i]) {
+					continue
+				}
+				if accumulators[info.Defs[id]] {
+					continue
+				}
+				if o := an.ObjOf(info, r); o != nil && origin[o] != nil && info.Defs[id] != nil {
+					origin[info.Defs[id]] = origin[o]
+				}
 			}
 			return true
 		}
@@ -256,6 +294,12 @@ func runVClockMerge(c *core.Ctx) {
 				}
 			}
 		}
+		// `acc := bigger` where bigger names an operand's map and acc is the accumulator
+		if id, isId := an.Unparen(as.Rhs[0]).(*ast.Ident); isId && base == nil && accumulators[info.Defs[as.Lhs[0].(*ast.Ident)]] {
+			if o := info.ObjectOf(id); o != nil && origin[o] != nil {
+				base = o
+			}
+		}
 		return true
 	})
 	good := okShape && base != nil && iterated != nil && base != iterated && origin[base] != origin[iterated]
@@ -280,6 +324,9 @@ func runVClockMerge(c *core.Ctx) {
 					accObj = info.Defs[as.Lhs[0].(*ast.Ident)]
 				}
 			}
+		}
+		if id, isId := an.Unparen(as.Rhs[0]).(*ast.Ident); isId && info.ObjectOf(id) == base && accumulators[info.Defs[as.Lhs[0].(*ast.Ident)]] {
+			accObj = info.Defs[as.Lhs[0].(*ast.Ident)]
 		}
 		return true
 	})
